@@ -76,7 +76,9 @@ func shape(h *sam.Header) string {
 	var b bytes.Buffer
 	fmt.Fprintf(&b, "V=%s SO=%d GO=%d;", h.Version, int(h.SortOrder), int(h.GroupOrder)) // numeric: GroupUnspecified and GroupNone both print "none"
 	for _, r := range h.Refs() {
-		fmt.Fprintf(&b, "R(%d,%s,%d,%x,%s,%s,%s);", r.ID(), r.Name(), r.Len(), r.MD5(), r.AssemblyID(), r.Species(), r.URI())
+		fmt.Fprintf(&b, "R(%d,%s,%d,%x,%s,%s,%s", r.ID(), r.Name(), r.Len(), r.MD5(), r.AssemblyID(), r.Species(), r.URI())
+		r.Tags(func(t sam.Tag, v string) { fmt.Fprintf(&b, ",%s=%s", t, v) })
+		b.WriteString(");")
 	}
 	for _, r := range h.RGs() {
 		fmt.Fprintf(&b, "G(%d,%s,%s,%s,%d);", r.ID(), r.Name(), r.Library(), r.PlatformUnit(), r.Time().Unix())
@@ -198,8 +200,13 @@ func (w *world) newRef(name string, ln int, detail int) *sam.Reference {
 	if err != nil {
 		panic(err)
 	}
-	if detail == 4 || detail == 5 {
+	if detail == 4 || detail == 5 || detail == 6 {
 		r.Set(sam.NewTag("XY"), "extra")
+	}
+	if detail == 6 {
+		// further standard @SQ tags the library keeps as plain tag/value pairs
+		r.Set(sam.NewTag("AH"), "chr1:1-100")
+		r.Set(sam.NewTag("TP"), "linear")
 	}
 	w.rid(r)
 	return r
@@ -238,7 +245,7 @@ func (w *world) step() {
 				n := names[r.Intn(len(names))]
 				if !used[n] {
 					used[n] = true
-					initial = append(initial, w.newRef(n, lens[r.Intn(2)], r.Intn(6)))
+					initial = append(initial, w.newRef(n, lens[r.Intn(2)], r.Intn(7)))
 				}
 			}
 		}
@@ -281,7 +288,7 @@ func (w *world) step() {
 			case 1: // a fresh object duplicating an existing name, same length, more detail
 				if rs := hd.Refs(); len(rs) > 0 {
 					e := rs[r.Intn(len(rs))]
-					x = w.newRef(e.Name(), e.Len(), 1+r.Intn(5))
+					x = w.newRef(e.Name(), e.Len(), 1+r.Intn(6))
 				}
 			case 2: // conflicting length
 				if rs := hd.Refs(); len(rs) > 0 {
@@ -290,7 +297,7 @@ func (w *world) step() {
 				}
 			}
 			if x == nil {
-				x = w.newRef(name, lens[r.Intn(2)], r.Intn(6))
+				x = w.newRef(name, lens[r.Intn(2)], r.Intn(7))
 			}
 			var err error
 			res := safely(func() { err = hd.AddReference(x) })
